@@ -23,6 +23,7 @@ import Driver.Proto
 import AdaptaVerif.Model.Tri
 import AdaptaVerif.Check.Topo
 import AdaptaVerif.Model.TopoPrune
+import AdaptaVerif.Model.TopoCons
 namespace Driver.C13
 open Driver AdaptaVerif.Num AdaptaVerif.Model.Tri AdaptaVerif.Check.Topo
 
@@ -121,6 +122,33 @@ def checkTri (c : Case) : CaseResult := Id.run do
 
 /-! ### scenes -/
 
+/-- a dumped StraightConstraint (`KS` line, harness/c13_cons.h) -/
+structure KSLine where
+  e : Nat
+  seg : Nat
+  node : Nat
+  ri : Nat
+  nodeLeft : Bool
+  pos : Rat
+  p : Rat
+  g : Rat
+  u : Nat
+  v : Nat
+  w : Nat
+  deriving Inhabited, BEq, Repr
+
+/-- a dumped BendConstraint (`KB` line) -/
+structure KBLine where
+  e : Nat
+  pt : Nat
+  leftOf : Bool
+  u : Nat
+  v : Nat
+  w : Nat
+  p : Rat
+  g : Rat
+  deriving Inhabited, BEq, Repr
+
 structure Snap where
   kind : String
   dim : Nat
@@ -128,6 +156,10 @@ structure Snap where
   paths : Array (List PathPt)
   /-- per edge: the `C` line of a closed path (empty for ordinary edges) -/
   cinfo : Array (List Nat) := #[]
+  /-- a constraint dump (`KD`) follows this state -/
+  kd : Bool := false
+  ks : Array KSLine := #[]
+  kb : Array KBLine := #[]
   deriving Inhabited
 
 def parsePath (ts : Array String) : Option (Nat × List PathPt) := do
@@ -160,6 +192,23 @@ def parseSnaps (c : Case) (nNodes nEdges : Nat) : Option (Array Snap) := do
       let s := out.back!
       if e < s.paths.size then
         out := out.pop.push { s with paths := s.paths.set! e pts }
+    else if l[0]! == "KD" && out.size > 0 then
+      let s := out.back!
+      out := out.pop.push { s with kd := true }
+    else if l[0]! == "KS" && l.size ≥ 12 && out.size > 0 then
+      let v ← nums? (l.extract 6 9)
+      let s := out.back!
+      let k : KSLine :=
+        { e := nat! l[1]!, seg := nat! l[2]!, node := nat! l[3]!, ri := nat! l[4]!, nodeLeft := l[5]! == "1",
+          pos := v[0]!, p := v[1]!, g := v[2]!, u := nat! l[9]!, v := nat! l[10]!, w := nat! l[11]! }
+      out := out.pop.push { s with ks := s.ks.push k }
+    else if l[0]! == "KB" && l.size ≥ 9 && out.size > 0 then
+      let v ← nums? (l.extract 7 9)
+      let s := out.back!
+      let k : KBLine :=
+        { e := nat! l[1]!, pt := nat! l[2]!, leftOf := l[3]! == "1", u := nat! l[4]!, v := nat! l[5]!, w := nat! l[6]!,
+          p := v[0]!, g := v[1]! }
+      out := out.pop.push { s with kb := s.kb.push k }
     else if l[0]! == "C" && l.size ≥ 8 && out.size > 0 then
       let e := nat! l[1]!
       let s := out.back!
@@ -296,6 +345,290 @@ def pruneTieEdge (t : PruneTie) (dim e stepNo : Nat) (nodes : Array NodeRect) (p
     let pts := " ".intercalate (pre.map fun a => s!"{a.node}.{a.ri}({showQ a.x},{showQ a.y})")
     { t with mismatch := some s!"TopologyConstraints constructor (axis {dim}) at step {stepNo}, edge {e}: path before [{pts}], PruneDegenerate left [{showPts got}], Model/TopoPrune.prune leaves [{showPts expected}]" }
 
+
+/-! ### tie of the constraint generation and of the two `satisfy()` rewrites to Model/TopoCons
+
+After every `TopologyConstraints` construction the harness dumps the constraints the instance holds
+(`KD`/`KS`/`KB`, harness/c13_cons.h), and again after every `solve()`.
+
+* construct: per node event (NodeOpen at the node's low scan position, NodeClose at the high one)
+  the set of dumped StraightConstraints with that (node, pos) must be the set `consAtOpen` /
+  `consAtClose` of the model - (edge, segment, corner, nodeLeft) exactly, p and g within 1e-9
+  relative, u v w exactly.  The comparator of the event sort leaves events of the same kind at the
+  same position unordered; for every such group of nodes all orders are tried (≤ 5 nodes; the
+  order `std::sort` produced is not observable) and one order must explain all events of the group.
+  The BendConstraints of every open path must be `bendCons`.  The state machine `scan` is run as
+  well and must give the same set as the closed form (model-internal check; Lemmas/TopoConsScan
+  is the proof).
+* solve: one edge may have gained a point (StraightConstraint::satisfy) or lost one
+  (BendConstraint::satisfy): the new path and the new per-segment constraint lists (in list order)
+  must be `straightSatisfy` / `bendSatisfy` of the previous dump evaluated in the geometry after
+  the move; nothing else may change.
+
+Comparisons whose outcome depends on a floating-point rounding (two compared quantities differ by
+less than 1e-6 without being equal in exact arithmetic) are not made (`cons.guarded`).
+A difference is a DIVERGE; failures later in the same history get the class prefix `cons-mismatch/`. -/
+namespace ConsTie
+open AdaptaVerif.Model.TopoCons
+
+structure St where
+  constructs : Nat := 0
+  events : Nat := 0
+  straight : Nat := 0
+  bends : Nat := 0
+  guarded : Nat := 0
+  tieGroups : Nat := 0
+  tieNonStable : Nat := 0
+  tieUndecided : Nat := 0
+  blind : Nat := 0
+  parallelSegs : Nat := 0
+  rewritesS : Nat := 0
+  rewritesB : Nat := 0
+  unchanged : Nat := 0
+  scanChecked : Nat := 0
+  mismatch : Option String := none
+
+def St.fail (t : St) (m : String) : St := if t.mismatch.isSome then t else { t with mismatch := some m }
+
+def tolQ : Rat := 1 / 1000000
+def near (a b : Rat) : Bool := a != b && Driver.C13.absQ (a - b) < tolQ
+def closeRel (a b : Rat) : Bool := Driver.C13.absQ (a - b) ≤ (Driver.C13.absQ a + Driver.C13.absQ b + 1) / 1000000000
+
+def tcNode (geom : Snap) (i : Nat) : Node :=
+  let r := geom.nodes.getD i default
+  ⟨i, ⟨r.minX, r.maxX, r.minY, r.maxY⟩⟩
+
+def tcPts (geom : Snap) (path : List PathPt) : List EPt := path.map fun a => ⟨tcNode geom a.node, a.ri⟩
+
+def insertAll {α : Type} (a : α) : List α → List (List α)
+  | [] => [[a]]
+  | b :: l => (a :: b :: l) :: (insertAll a l).map (b :: ·)
+
+/-- all orders of a list, the given order first -/
+def perms {α : Type} : List α → List (List α)
+  | [] => [[]]
+  | a :: l => (perms l).flatMap (insertAll a)
+
+def beforeOf (perm : List Nat) (m n : Node) : Bool := perm.idxOf m.id < perm.idxOf n.id
+
+/-- a comparison made for the pair (segment, node event) may round differently in the library -/
+def pairDelicate (d : Nat) (n : Node) (pos : Rat) (others : List Node) (sg : Seg) : Bool :=
+  let c := conj d
+  near (sg.s.pos c) pos || near (sg.e.pos c) pos || near (sg.s.pos c) (sg.e.pos c) ||
+  (!sg.parallel d &&
+    (let x := sg.inter d pos
+     near x (n.r.centre d) || others.any fun m => near x (m.r.centre d)))
+
+def showKeys (l : List (Nat × Nat × Nat × Bool)) : String :=
+  " ".intercalate (l.map fun k => s!"e{k.1}.s{k.2.1}:ri{k.2.2.1}{if k.2.2.2 then "L" else "R"}")
+
+def sameSet {α : Type} [BEq α] (a b : List α) : Bool := a.length == b.length && a.all b.contains && b.all a.contains
+
+/-- compare one node event; `none` = equal, `some msg` = difference; second component = (#compared, #guarded) -/
+def eventDiff (d : Nat) (nodes : List Node) (segs : List Seg) (ks : List KSLine) (isOpen : Bool)
+    (before : Node → Node → Bool) (n : Node) : Option String × Nat × Nat :=
+  let pos := if isOpen then n.r.lo (conj d) else n.r.hi (conj d)
+  let exp := if isOpen then consAtOpen d before nodes segs n else consAtClose d before nodes segs n
+  let others := nodes.filter fun m => m.id != n.id
+  let del := segs.filter (pairDelicate d n pos others)
+  let isDel (e i : Nat) : Bool := del.any fun sg => sg.edge == e && sg.idx == i
+  let exp := exp.filter fun x => !isDel x.1.edge x.1.idx
+  let got := ks.filter fun k => k.node == n.id && k.pos == pos && !isDel k.e k.seg
+  let ek := exp.map fun x => (x.1.edge, x.1.idx, x.2.ri, x.2.nodeLeft)
+  let gk := got.map fun k => (k.e, k.seg, k.ri, k.nodeLeft)
+  if !sameSet ek gk then
+    (some s!"{if isOpen then "NodeOpen" else "NodeClose"} of node {n.id} at scan position {showQ pos} (axis {d}): the library holds StraightConstraints [{showKeys gk}], the model generates [{showKeys ek}]", exp.length, del.length)
+  else
+    let bad := exp.find? fun x =>
+      match got.find? (fun k => k.e == x.1.edge && k.seg == x.1.idx && k.ri == x.2.ri) with
+      | some k => !(closeRel k.p x.2.p && closeRel k.g x.2.g && k.u == x.1.s.node.id && k.v == x.1.e.node.id && k.w == n.id)
+      | none => true
+    match bad with
+    | some x => (some s!"StraightConstraint of node {n.id} at {showQ pos} on edge {x.1.edge} segment {x.1.idx}: TriConstraint members differ from the model (model p={showQ x.2.p} g={showQ x.2.g} u={x.1.s.node.id} v={x.1.e.node.id})", exp.length, del.length)
+    | none => (none, exp.length, del.length)
+
+/-- all events of one tie group under one order -/
+def groupDiff (d : Nat) (nodes : List Node) (segs : List Seg) (ks : List KSLine) (isOpen : Bool)
+    (grp : List Node) (perm : List Nat) : Option String × Nat × Nat :=
+  grp.foldl (fun acc n =>
+    let r := eventDiff d nodes segs ks isOpen (beforeOf perm) n
+    ((match acc.1 with | some m => some m | none => r.1), acc.2.1 + r.2.1, acc.2.2 + r.2.2)) (none, 0, 0)
+
+def checkGroups (t : St) (d : Nat) (nodes : List Node) (segs : List Seg) (ks : List KSLine) (isOpen : Bool) : St := Id.run do
+  let key (n : Node) : Rat := if isOpen then n.r.lo (conj d) else n.r.hi (conj d)
+  let mut t := t
+  let mut seen : List Rat := []
+  for n in nodes do
+    if seen.contains (key n) then continue
+    seen := key n :: seen
+    let grp := nodes.filter fun m => key m == key n
+    let ids := grp.map (·.id)
+    let stable := groupDiff d nodes segs ks isOpen grp ids
+    t := { t with events := t.events + grp.length, straight := t.straight + stable.2.1, guarded := t.guarded + stable.2.2 }
+    if grp.length > 1 then t := { t with tieGroups := t.tieGroups + 1 }
+    match stable.1 with
+    | none => pure ()
+    | some msg =>
+      if grp.length == 1 then t := t.fail msg
+      else if grp.length ≤ 5 then
+        if (perms ids).any fun pm => (groupDiff d nodes segs ks isOpen grp pm).1.isNone then
+          t := { t with tieNonStable := t.tieNonStable + 1 }
+        else t := t.fail (msg ++ s!" (no order of the {grp.length} nodes {ids} that share this scan position explains the constraints)")
+      else if (groupDiff d nodes segs ks isOpen grp ids.reverse).1.isNone then
+        t := { t with tieNonStable := t.tieNonStable + 1 }
+      else t := { t with tieUndecided := t.tieUndecided + 1 }
+  return t
+
+def bendDiff (d e : Nat) (pts : List EPt) (kb : List KBLine) : Option String × Nat × Nat := Id.run do
+  let c := conj d
+  -- bends whose reference-segment choice (inLen > outLen) is within rounding are not compared
+  let arr := pts.toArray
+  let delicate (i : Nat) : Bool :=
+    if i == 0 || i + 1 ≥ arr.size then false else
+    let u := arr[i-1]!; let v := arr[i]!; let w := arr[i+1]!
+    near (absQ (v.pos c - u.pos c)) (absQ (w.pos c - v.pos c))
+  let exp := (bendCons d pts).filter fun b => !delicate b.idx
+  let got := kb.filter fun k => k.e == e && !delicate k.pt
+  let nd := (List.range pts.length).countP delicate
+  if exp.length != got.length then
+    return (some s!"edge {e} (axis {d}): the library holds BendConstraints at points {got.map (·.pt)}, the model at {exp.map (·.idx)}", exp.length, nd)
+  for (b, k) in exp.zip got do
+    if !(b.idx == k.pt && b.leftOf == k.leftOf && b.u == k.u && b.v == k.v && b.w == k.w && closeRel b.p k.p && closeRel b.g k.g) then
+      return (some s!"edge {e} (axis {d}) BendConstraint at point {k.pt}: library leftOf={k.leftOf} u={k.u} v={k.v} w={k.w} p={showQ k.p} g={showQ k.g}, model point {b.idx} leftOf={b.leftOf} u={b.u} v={b.v} w={b.w} p={showQ b.p} g={showQ b.g} (reverse={b.rev})", exp.length, nd)
+  return (none, exp.length, nd)
+
+def openEdges (s : Snap) (cyc : Array Bool) : List Nat := (List.range s.paths.size).filter fun e => !cyc.getD e false
+
+def checkBends (t : St) (s : Snap) (cyc : Array Bool) : St :=
+  (openEdges s cyc).foldl (fun t e =>
+    let r := bendDiff s.dim e (tcPts s (s.paths[e]!)) s.kb.toList
+    let t := { t with bends := t.bends + r.2.1, guarded := t.guarded + r.2.2 }
+    match r.1 with | some m => t.fail ("cons tie: " ++ m) | none => t) t
+
+/-- a construction: generation tie -/
+def checkConstruct (t : St) (s : Snap) (cyc : Array Bool) (stepNo : Nat) : St := Id.run do
+  let d := s.dim
+  let nodes := (List.range s.nodes.size).map (tcNode s)
+  let segs := (openEdges s cyc).flatMap fun e => segsOf e (tcPts s (s.paths[e]!))
+  let ks := s.ks.toList
+  let mut t := { t with constructs := t.constructs + 1,
+                        parallelSegs := t.parallelSegs + segs.countP (·.parallel d) }
+  let pre := t.mismatch.isSome
+  t := checkGroups t d nodes segs ks true
+  t := checkGroups t d nodes segs ks false
+  t := checkBends t s cyc
+  if !pre then
+    match t.mismatch with
+    | some m => t := { t with mismatch := some s!"cons tie: TopologyConstraints constructor at step {stepNo}: {m}" }
+    | none => pure ()
+  -- model-internal: the state machine against the closed form (stable tie order)
+  let tb : Ev → Nat := fun ev => match ev with
+    | .nodeOpen n => n.id | .nodeClose n => n.id | .segOpen _ => 0 | .segClose _ => 0
+  let stab (m n : Node) : Bool := m.id < n.id
+  let sc := scan d tb nodes segs
+  let k4 (x : Seg × SC) := (x.1.edge, x.1.idx, x.2.node.id, x.2.ri, x.2.nodeLeft, x.2.pos)
+  let a := sc.out.map k4
+  let b := (consClosed d stab stab nodes segs).map k4
+  t := { t with scanChecked := t.scanChecked + 1 }
+  if !sc.dupKey && (!sameSet a b || !sc.openSegs.isEmpty || !sc.openNodes.isEmpty) then
+    t := t.fail s!"cons tie (model-internal): at step {stepNo} Model/TopoCons.scan and its closed form consClosed differ ({a.length} vs {b.length} constraints; open at end: {sc.openSegs.length} segments, {sc.openNodes.length} nodes)"
+  -- statistics: pairs hidden by the segment's own end node (the registered blind spot)
+  for n in nodes do
+    for isOpen in [true, false] do
+      let pos := if isOpen then n.r.lo (conj d) else n.r.hi (conj d)
+      let others := if isOpen then openNodesAtOpen d stab n nodes else openNodesAtClose d stab n nodes
+      let os := if isOpen then openSegsAtOpen d pos segs else openSegsAtClose d pos segs
+      for sg in os do
+        if sg.connected n then continue
+        let x := sg.inter d pos
+        let own (nb : Option Node) : Bool := match nb with
+          | some m => (sg.s.ri == 4 && sg.s.node.id == m.id) || (sg.e.ri == 4 && sg.e.node.id == m.id)
+          | none => false
+        let L := leftNb d n others; let R := rightNb d n others
+        if (blocks d pos x true L && own L) || (blocks d pos x false R && own R) then
+          t := { t with blind := t.blind + 1 }
+  return t
+
+def edgeSt (geom : Snap) (e : Nat) (path : List PathPt) (ks : List KSLine) : EdgeSt :=
+  let pts := tcPts geom path
+  { id := e, pts := pts,
+    scs := (List.range (pts.length - 1)).map fun j =>
+      (ks.filter fun k => k.e == e && k.seg == j).map fun k =>
+        { node := tcNode geom k.node, ri := k.ri, pos := k.pos, nodeLeft := k.nodeLeft, p := k.p, g := k.g } }
+
+def scEq (a b : SC) : Bool :=
+  a.node.id == b.node.id && a.ri == b.ri && a.pos == b.pos && a.nodeLeft == b.nodeLeft && closeRel a.p b.p && closeRel a.g b.g
+
+def showScs (l : List SC) : String :=
+  " ".intercalate (l.map fun c => s!"n{c.node.id}:ri{c.ri}{if c.nodeLeft then "L" else "R"}@{showQ c.pos}")
+
+/-- some `createStraight` decision on the new segment(s) is within rounding -/
+def rewriteDelicate (d : Nat) (newSegs : List Seg) (cands : List SC) : Bool :=
+  newSegs.any fun sg => near (sg.s.pos (conj d)) (sg.e.pos (conj d)) ||
+    cands.any fun c => !sg.parallel d && near (sg.inter d c.pos) (c.node.r.centre d)
+
+/-- a `solve()` step: rewrite tie for edge `e` -/
+def checkEdgeStep (t : St) (prev s : Snap) (e stepNo : Nat) : St := Id.run do
+  let d := s.dim
+  let pre := edgeSt s e (prev.paths[e]!) prev.ks.toList          -- previous structure in the geometry after the move
+  let post := edgeSt s e (s.paths[e]!) s.ks.toList
+  let n0 := pre.pts.length
+  let n1 := post.pts.length
+  let ptKey (l : List EPt) := l.map fun a => (a.node.id, a.ri)
+  let where_ := s!"cons tie: solve() step {stepNo} (axis {d}), edge {e}: "
+  let cmp (t : St) (st' : EdgeSt) (what : String) : St :=
+    if ptKey st'.pts != ptKey post.pts then
+      t.fail (where_ ++ s!"{what}: path is {ptKey post.pts}, the model's rewrite gives {ptKey st'.pts}")
+    else
+      match (List.range (n1 - 1)).find? (fun j =>
+          let a := st'.scs.getD j []; let b := post.scs.getD j []
+          !(a.length == b.length && (a.zip b).all fun ab => scEq ab.1 ab.2)) with
+      | some j => t.fail (where_ ++ s!"{what}: segment {j} holds StraightConstraints [{showScs (post.scs.getD j [])}], the model's rewrite gives [{showScs (st'.scs.getD j [])}]")
+      | none => t
+  if n1 == n0 then
+    return cmp { t with unchanged := t.unchanged + 1 } pre "nothing was rewritten on this edge"
+  else if n1 == n0 + 1 then
+    -- StraightConstraint::satisfy: the first index where the paths differ is the new bend
+    let q := ((ptKey pre.pts).zip (ptKey post.pts)).takeWhile (fun ab => ab.1 == ab.2) |>.length
+    if q == 0 then return t.fail (where_ ++ "the path gained a point at its start")
+    let j := q - 1
+    let bend := post.pts.getD q default
+    let lst := pre.scs.getD j []
+    match lst.findIdx? (fun c => c.node.id == bend.node.id && c.ri == bend.ri) with
+    | none => return t.fail (where_ ++ s!"the path gained the bend (node {bend.node.id}, corner {bend.ri}) in segment {j}, but that segment held no StraightConstraint for it: [{showScs lst}]")
+    | some k =>
+      let a := pre.pts.getD j default; let b := pre.pts.getD (j+1) default
+      if rewriteDelicate d [⟨e, j, a, bend⟩, ⟨e, j+1, bend, b⟩] lst then return { t with guarded := t.guarded + 1 }
+      match straightSatisfy d pre j k with
+      | none => return t.fail (where_ ++ "straightSatisfy undefined")
+      | some st' => return cmp { t with rewritesS := t.rewritesS + 1 } st' s!"StraightConstraint::satisfy (segment {j}, node {bend.node.id}, corner {bend.ri})"
+  else if n1 + 1 == n0 then
+    let i := ((ptKey pre.pts).zip (ptKey post.pts)).takeWhile (fun ab => ab.1 == ab.2) |>.length
+    if i == 0 || i + 1 ≥ n0 then return t.fail (where_ ++ "the path lost an end point")
+    let u := pre.pts.getD (i-1) default; let v := pre.pts.getD i default; let w := pre.pts.getD (i+1) default
+    let cands := (pre.scs.getD (i-1) []) ++ (pre.scs.getD i []) ++
+      [{ node := v.node, ri := 0, pos := v.pos (conj d), nodeLeft := false, p := 0, g := 0 }]
+    if rewriteDelicate d [⟨e, i-1, u, w⟩] cands then return { t with guarded := t.guarded + 1 }
+    match bendSatisfy d pre i with
+    | none => return t.fail (where_ ++ "bendSatisfy undefined")
+    | some st' => return cmp { t with rewritesB := t.rewritesB + 1 } st' s!"BendConstraint::satisfy (point {i}, node {v.node.id}, corner {v.ri})"
+  else
+    return t.fail (where_ ++ s!"the path went from {n0} to {n1} points in one solve()")
+
+def checkSolve (t : St) (prev s : Snap) (cyc : Array Bool) (stepNo : Nat) : St :=
+  let t := (openEdges s cyc).foldl (fun t e => checkEdgeStep t prev s e stepNo) t
+  checkBends t s cyc
+
+def St.stats (t : St) : List (String × Nat) :=
+  [("cons.constructs", t.constructs), ("cons.node-events", t.events), ("cons.straight-compared", t.straight),
+   ("cons.bends-compared", t.bends), ("cons.guarded", t.guarded), ("cons.tie-groups", t.tieGroups),
+   ("cons.tie-groups.non-stable-order", t.tieNonStable), ("cons.tie-groups.undecided", t.tieUndecided),
+   ("cons.hidden-by-own-endnode", t.blind), ("cons.parallel-segments", t.parallelSegs),
+   ("cons.rewrite.straight-satisfy", t.rewritesS), ("cons.rewrite.bend-satisfy", t.rewritesB),
+   ("cons.rewrite.unchanged-edges", t.unchanged), ("cons.scan-vs-closed", t.scanChecked)]
+
+end ConsTie
+
 def abortClass (txt : String) : String :=
   if (txt.splitOn "NoIntersection").length > 1 then "assert-segment-rect-intersection"
   else if (txt.splitOn "assertConvexBend").length > 1 then "assert-convex-bend"
@@ -332,9 +665,13 @@ def checkScene (c : Case) : CaseResult := Id.run do
     let mut structural := 0      -- steps in which some path gained / lost a bend
     let mut sigChecks := 0
     let mut tie : PruneTie := {}
+    let mut ct : ConsTie.St := {}
     -- class prefix of every failure that follows a constructor pass that did not prune as modelled
     let pm (t : PruneTie) : String := if t.mismatch.isSome then "prune-mismatch/" else ""
     let pmNote (t : PruneTie) : String := match t.mismatch with | some m => "; earlier: " ++ m | none => ""
+    -- the same for a history in which the constraints held by the library are not the model's
+    let cm (t : ConsTie.St) : String := if t.mismatch.isSome then "cons-mismatch/" else ""
+    let cmNote (t : ConsTie.St) : String := match t.mismatch with | some m => "; earlier: " ++ m | none => ""
     for i in [1:snaps.size] do
       let s := snaps[i]!
       let prev := snaps[i-1]!
@@ -347,6 +684,10 @@ def checkScene (c : Case) : CaseResult := Id.run do
         for e in [0:s.paths.size] do
           if cyc.getD e false then continue
           tie := pruneTieEdge tie s.dim e i prev.nodes prev.paths[e]! s.paths[e]!
+      -- constraint generation / rewrite tie (Model/TopoCons)
+      if s.kd && s.dim < 2 then
+        if s.kind == "construct" then ct := ConsTie.checkConstruct ct s cyc i
+        else if s.kind == "solve" && prev.kd && prev.dim == s.dim then ct := ConsTie.checkSolve ct prev s cyc i
       let where_ := s!"step {i} ({s.kind}, axis {s.dim}) of {snaps.size - 1}"
       let ab := if s.kind == "abort" then
           s!"; library aborted: {abortTxt.getD "?"}" else ""
@@ -360,8 +701,8 @@ def checkScene (c : Case) : CaseResult := Id.run do
             (if endNodeShadow s e j k then "endnode-visibility" else "seg-through-node")
           else if name == "bad-bend" && hasParallelLeg prev s e then "bad-bend-after-parallel-segment"
           else name
-        let cls := pm tie ++ cls
-        return { verdict := .specfail s!"class={cls} {where_}: {detail}{ab}{pmNote tie}",
+        let cls := pm tie ++ cm ct ++ cls
+        return { verdict := .specfail s!"class={cls} {where_}: {detail}{ab}{pmNote tie}{cmNote ct}",
                  stats := [("scene.fail." ++ cls, 1)] }
       | none => pure ()
       -- side signature for single-axis steps
@@ -391,8 +732,8 @@ def checkScene (c : Case) : CaseResult := Id.run do
           if sa != sb then
             let k := (firstSigDiff sa sb).getD 0
             let cls := if endLegShadow s e k then "endnode-visibility" else "side-changed"
-            let cls := pm tie ++ cls
-            return { verdict := .specfail s!"class={cls} {where_}: side changed without a visible intersection: edge {e} passes node {k} on a different side: crossings before/at centre {sa.getD k (0,0)} → {sb.getD k (0,0)}{ab}{pmNote tie}",
+            let cls := pm tie ++ cm ct ++ cls
+            return { verdict := .specfail s!"class={cls} {where_}: side changed without a visible intersection: edge {e} passes node {k} on a different side: crossings before/at centre {sa.getD k (0,0)} → {sb.getD k (0,0)}{ab}{pmNote tie}{cmNote ct}",
                      stats := [("scene.fail." ++ cls, 1)] }
       -- two-pass steps (applyResizes / handleResizes: x pass, then y pass): parity of the side
       -- count on both axes, corrected for path end points passing over the ray
@@ -412,12 +753,15 @@ def checkScene (c : Case) : CaseResult := Id.run do
       -- the library stopped itself (its own invariant checks / a sanitizer) although every state
       -- we saw passes our checkers: still a failing input (CRASH)
       let inResize := snaps.back!.kind == "abort" && snaps.back!.dim == 2
-      let cls := pm tie ++ "crash-" ++ (if inResize then "resize-" else "") ++ abortClass txt
-      return { verdict := .specfail s!"class={cls} CRASH after {snaps.size - 1} states, all of which pass the state checkers: {txt}{pmNote tie}",
+      let cls := pm tie ++ cm ct ++ "crash-" ++ (if inResize then "resize-" else "") ++ abortClass txt
+      return { verdict := .specfail s!"class={cls} CRASH after {snaps.size - 1} states, all of which pass the state checkers: {txt}{pmNote tie}{cmNote ct}",
                stats := [("scene.fail." ++ cls, 1)] }
     | none => pure ()
     match tie.mismatch with
     | some m => return { verdict := .diverge s!"prune tie: {m}", stats := [("prune.mismatch", 1)] }
+    | none => pure ()
+    match ct.mismatch with
+    | some m => return { verdict := .diverge m, stats := [("cons.mismatch", 1)] }
     | none => pure ()
     return { verdict := .ok, nontrivial := structural > 0,
              stats := [("scene.states", nStates), ("scene.legs", nLegs), ("scene.bends", nBends),
@@ -425,7 +769,7 @@ def checkScene (c : Case) : CaseResult := Id.run do
                        ("scene.nodes", nNodes), ("scene.edges", ends.size),
                        ("prune.tie.paths", tie.compared), ("prune.tie.guarded", tie.guarded),
                        ("prune.tie.coincident-pairs", tie.pairs), ("prune.tie.points-pruned", tie.pruned),
-                       ("prune.tie.model-assert-fails", tie.assertFail)] }
+                       ("prune.tie.model-assert-fails", tie.assertFail)] ++ ct.stats }
 
 /-! ### prune-rule cases: the constructor's pruning of constructed paths vs. Model/TopoPrune -/
 
